@@ -36,12 +36,27 @@ class PickleStream(Foreign):
             for x_ in args[0].parts:
                 self.items.append(x_.obj)          # several whole pickles written with one call
             return None
+        if name in ('write',) and len(args) == 1 and isinstance(args[0], Arr) and args[0].mask is None and args[0].ndim >= 1:
+            self.items.append(('RAWARR', args[0]))          # handle.write(x.data) / handle.write(x): the bytes of x's values, row-major, with nothing around them
+            return None
         if name in ('write',):
             self.raw.append(args)
             self.items.append(('RAW', args))
             if not (len(args) == 1 and isinstance(args[0], (bytes, str))):
                 self.unmodelled = 'handle.write(%r)' % (args,)          # what was written is not known: nothing can be said about reading it back
             return None
+        if name == 'read' and len(args) <= 1:
+            # handle.read(n): the next n bytes.  Modelled where they are (the start of) a raw block of values: the block, or what is left of it in a cut file
+            if self.pos < len(self.items):
+                it = self.items[self.pos]
+                if isinstance(it, tuple) and it and it[0] == 'RAWARR':
+                    self.pos += 1
+                    return _RawBytes(it[1], False)
+                return Unk('raw read where the file holds a pickle', node)
+            self.cut_raised = True
+            ref = self.cut_item[1] if isinstance(self.cut_item, tuple) and self.cut_item and self.cut_item[0] == 'RAWARR' else None
+            dims = ('cut~',) + (tuple(ref.dims[1:]) if ref is not None else ())
+            return _RawBytes(symarr('values_before_the_cut', dims, unit=ref.unit if ref is not None else None), True)
         if name in ('read', 'readline', 'tell', 'seek'):
             return Unk('raw %s on the results file' % name, node)
         if name == 'raw_write_array' and len(args) == 1 and isinstance(args[0], Arr) and args[0].mask is None:
@@ -169,6 +184,15 @@ def materialise(v, interp, memo=None):
     if isinstance(v, dict):
         return {k: materialise(x, interp, memo) for k, x in v.items()}
     return v
+
+
+class _RawBytes(Foreign):
+    """the bytes handle.read() returned for a raw block of values (all of it, or what a cut file still holds): np.frombuffer gives the values, flat"""
+    def __init__(self, arr, short):
+        self.arr, self.short = arr, short
+
+    def sl_frombuffer(self, interp, kw, node):
+        return _RawFlat(self.arr, self.short)
 
 
 class PickleBytes(Foreign):
